@@ -88,6 +88,7 @@ type World struct {
 
 	modelDiverged    bool
 	tamperedAt       map[int64]bool // heights with a rejected tampered tx
+	duplicateAt      map[int64]bool // heights with a rejected re-submission of an executed tx
 	expectIssued     *big.Int
 	adoptGov         bool
 	deletedThisBlock map[Addr]bool
@@ -141,7 +142,7 @@ func govParamsFromDoc(doc string) (*rtypes.GovParams, error) {
 // NewWorld sets up actors, genesis, the model and the leader replica.
 func NewWorld(tr *Trace, explore bool, baseDir string) (*World, error) {
 	w := &World{Tr: tr, Explore: explore, Base: baseDir, ByAddr: map[Addr]*Actor{}, Probes: NewProbes(),
-		QueryMemo: map[string][]byte{}, deletedThisBlock: map[Addr]bool{}, restarted: map[int]bool{}, tamperedAt: map[int64]bool{}}
+		QueryMemo: map[string][]byte{}, deletedThisBlock: map[Addr]bool{}, restarted: map[int]bool{}, tamperedAt: map[int64]bool{}, duplicateAt: map[int64]bool{}}
 	if explore {
 		w.Rng = core.Derive(tr.Seed, "world", uint64(tr.World))
 		w.Gen = NewGenerator(w)
